@@ -143,6 +143,10 @@ def fx_hook(params):
     LOG.append(['hook', params['name'], _state(params.get('model')) if 'model' in params else None])
 
 
+def fx_hook_main(params):
+    LOG.append(['hook', params['name'] + '@main', _state(params.get('model')) if 'model' in params else None])
+
+
 def fx_hook_v2(params):
     LOG.append(['hook', params['name'] + '#v2', _state(params.get('model')) if 'model' in params else None])
 
@@ -187,6 +191,10 @@ def build_desc(case):
             return ent({'func': 'fx_provide_members', 'params': {'name': name}})
         if name == case.get('swap_at'):
             return ent({'func': 'fx_swap_env', 'params': {'name': name}})
+        if case.get('hooks_in_main'):
+            # the classes are listed with their (library) module, the hooks name no module: they are functions of
+            # the main script
+            return {'func': 'fx_hook', 'params': {'name': name}}
         return ent({'func': 'fx_nested' if name == nested_at else 'fx_hook', 'params': {'name': name}})
 
     hooks = case['hooks']       # dict name -> bool
@@ -202,7 +210,7 @@ def build_desc(case):
         desc['post_model_decode'] = hook('post_model')
     for i, prio in enumerate(case['prios']):
         s = ent({'name': 'FxCollector' if case.get('sys_kind') == 'collector' else 'FxSystem',
-                 'params': {'id': f's{i}', 'priority': prio, 'frequency': 1 + i, 'start': 0, 'end': _end(case, i)}})
+                 'params': {'id': _sid(case, i), 'priority': prio, 'frequency': 1 + i, 'start': 0, 'end': _end(case, i)}})
         if case.get('late_at') == f'pre_s{i}':
             s['name'], s['module'] = 'FxLateSystem', LATE_MODULE
         if hooks.get(f'pre_s{i}'):
@@ -211,7 +219,7 @@ def build_desc(case):
             s['post_system_init'] = hook(f'post_s{i}')
         desc['systems'].append(s)
     for g, n in enumerate(case['sizes']):
-        a = ent({'name': 'FxAgent', 'number': n, 'params': {'group': f'g{g}'}})
+        a = ent({'name': 'FxAgent', 'number': n, 'params': {'group': _gid(case, g)}})
         if case.get('stale_index'):
             a['params']['agent_index'] = 5      # a stale value in the file must not survive: indices are 0..n-1
         if case.get('late_at') == f'pre_g{g}':
@@ -222,6 +230,20 @@ def build_desc(case):
             a['post_agent_init'] = hook(f'post_g{g}')
         desc['agents'].append(a)
     return desc
+
+
+# identifiers that are awkward inside a JSON file: escaped quotes followed by comment-like text, URLs, backslashes,
+# unicode escapes, braces
+ODD_SIDS = ['pipe 2" /*hot*/', 'http://host/a//b "x" #1', 'back\\slash "q', 'tab\there {0} // end', '\u00e9t\u00e9 "1" /* c */']
+ODD_GIDS = ['herd "A" // north', 'flock /* b */ "', 'x\\"y"//z']
+
+
+def _sid(case, i):
+    return ODD_SIDS[i % len(ODD_SIDS)] if case.get('odd_ids') else f's{i}'
+
+
+def _gid(case, g):
+    return ODD_GIDS[g % len(ODD_GIDS)] if case.get('odd_ids') else f'g{g}'
 
 
 def _end(case, i):
@@ -235,6 +257,10 @@ def expected_log(case, mid, v2=False):
         for e in out:
             if e[0] == 'hook':
                 e[1] += '#v2'
+    if case.get('hooks_in_main'):
+        for e in out:
+            if e[0] == 'hook':
+                e[1] += '@main'
     return out
 
 
@@ -247,7 +273,7 @@ def _expected_log(case, mid):
     for i, prio in enumerate(case['prios']):
         if hooks.get(f'pre_s{i}'):
             out.append(['hook', f'pre_s{i}', [mid, i, 0]])
-        out.append(['system', f's{i}', [mid, i, 0]])
+        out.append(['system', _sid(case, i), [mid, i, 0]])
         if hooks.get(f'post_s{i}'):
             out.append(['hook', f'post_s{i}', [mid, i + 1, 0]])
     ns = len(case['prios'])
@@ -258,7 +284,7 @@ def _expected_log(case, mid):
             if case.get('swap_at') == f'pre_g{g}':
                 na = 0          # the hook installed a fresh, empty environment
         for idx in range(n):
-            out.append(['agent', f'g{g}', idx, [mid, ns, na]])
+            out.append(['agent', _gid(case, g), idx, [mid, ns, na]])
             na += 1
         if hooks.get(f'post_g{g}'):
             out.append(['hook', f'post_g{g}', [mid, ns, na]])
@@ -276,6 +302,8 @@ def decode_case(case):
     me.fx_hook = _FX_HOOK_V1
     for name in ('FxModel', 'FxSystem', 'FxCollector', 'FxAgent', 'fx_hook', 'fx_nested', 'fx_provide', 'fx_swap_env', 'fx_provide_members'):
         setattr(main, name, getattr(me, name))     # resolution target when the description omits "module"
+    if case.get('hooks_in_main'):
+        main.fx_hook = fx_hook_main                # the main script's own function of that name
     tmp = tempfile.mkdtemp(prefix='c18-')
     try:
         f1 = os.path.join(tmp, 'desc.json')
@@ -344,8 +372,8 @@ def decode_case(case):
         order = sorted(range(len(case['prios'])), key=lambda i: (-case['prios'][i], i))
         if case.get('complete_model'):
             order = []
-        if ran != [f's{i}' for i in order]:
-            raise Violation('decoded systems do not run in priority / listing order', expected=[f's{i}' for i in order],
+        if ran != [_sid(case, i) for i in order]:
+            raise Violation('decoded systems do not run in priority / listing order', expected=[_sid(case, i) for i in order],
                             observed=ran)
         return json.dumps(logs[0])
     finally:
@@ -359,12 +387,12 @@ def _bad_decode(params):
 
 
 def check_model(m, case):
-    want_sys = [f's{i}' for i in range(len(case['prios']))]
+    want_sys = [_sid(case, i) for i in range(len(case['prios']))]
     if list(m.systems.systems) != want_sys:
         raise Violation('registered systems differ from the listed ones', expected=want_sys,
                         observed=list(m.systems.systems))
     for i, prio in enumerate(case['prios']):
-        s = m.systems[f's{i}']
+        s = m.systems[_sid(case, i)]
         got = [s.priority, s.frequency, s.start, s.end, s.model is m]
         if got != [prio, 1 + i, 0, _end(case, i), True]:
             raise Violation(f'system s{i} does not carry its declared scheduling',
@@ -372,7 +400,7 @@ def check_model(m, case):
     first = 0
     if case.get('swap_at'):      # only the groups created after the environment was replaced live in the model's environment
         first = int(case['swap_at'].split('_g')[1]) + (1 if case['swap_at'].startswith('post') else 0)
-    want_agents = [f'g{g}_{i}' for g, n in enumerate(case['sizes']) for i in range(n) if g >= first]
+    want_agents = [f'{_gid(case, g)}_{i}' for g, n in enumerate(case['sizes']) for i in range(n) if g >= first]
     got_agents = [a.id for a in m.environment]
     if got_agents != want_agents:
         raise Violation('environment does not hold exactly the listed agents in creation order', expected=want_agents,
@@ -458,6 +486,9 @@ def cases(tier):
             for at in hook_names(ns, ng):
                 if at.startswith('pre_s') or at.startswith('pre_g'):
                     out.append(dict(base, late_at=at))
+            out.append(dict(base, hooks_in_main=True))
+            out.append(dict(base, odd_ids=True))
+            out.append(dict(base, odd_ids=True, key_order='sorted'))
             out.append(dict(base, late_model=True))
             out.append(dict(base, late_model=True, hooks={'pre_model': True}))
     # a large description: 60 systems, a group of 1100 agents between an empty group and a small one
